@@ -49,7 +49,7 @@ func weighted(t *rapid.T, label string, w ...int) int {
 }
 
 func genU64Near(t *rapid.T, label string, base uint64) uint64 {
-	switch weighted(t, label+".k", 70, 6, 6, 3, 3, 2, 2, 2, 2, 2, 2, 4) {
+	switch weighted(t, label+".k", 70, 6, 6, 3, 3, 2, 2, 2, 2, 2, 2, 8, 4) {
 	case 0:
 		return base
 	case 1:
@@ -72,6 +72,14 @@ func genU64Near(t *rapid.T, label string, base uint64) uint64 {
 		return 1 << 63
 	case 10:
 		return ^uint64(0)
+	case 11:
+		// every order of magnitude: large enough to hurt if it sizes an allocation, small enough to pass a sanity cap
+		// (half of the draws between 1 Mi and 16 Gi, where an element count turns into 8 MiB .. 128 GiB)
+		lo, hi := 4, 62
+		if rapid.Bool().Draw(t, label+".mid") {
+			lo, hi = 20, 34
+		}
+		return uint64(1)<<uint(rapid.IntRange(lo, hi).Draw(t, label+".mag")) + uint64(rapid.IntRange(-1, 1).Draw(t, label+".off"))
 	}
 	return uint64(rapid.IntRange(0, 12).Draw(t, label+".small"))
 }
